@@ -169,7 +169,7 @@ chk("C07",
     "Lean 4 proof (history independence of pure search, all nine models; no statement of the scheme layer mutates an object it did not create, over a table regenerated from the source by an alias-analysis translator) + recorded-oracle correspondence + before/after comparison on the real objects",
     "6/C07")
 chk("C08",
-    "Props/C08.lean: for each of the nine configuration builders a configuration lacking (or marking -1) any parameter the builder reads is refused "
+    "Props/C08.lean: a TRANSLATOR (harness/translate/config_facts.py) regenerates Generated/ConfigFacts.lean from schemes/*/*/config.py on every run - per scheme the list literal _parse_config hands to check_param_exist, the fields it reads, whether the check comes first - and required_lists_are_source / missing_required_param_refused / reads_are_required prove that the Lean builders check exactly the source's lists and that every field a builder reads is one it requires (SSE2's two primitive names: refused by the look-up, SSE2.missing_primitive_refused); for each of the nine configuration builders a configuration lacking (or marking -1) any parameter the builder reads is refused "
     "with ValueError at configuration build; any zero or negative param_* number (other than the marker -1) is refused by every builder; for PiBas "
     "every raw configuration is refused, or setup fails, or (under the no-collision hypotheses) every stored keyword's search returns exactly its "
     "list (PiBas.mismatch_is_loud: an accepted PiBas configuration with prf_f_output_length != param_lambda makes EDBSetup raise); the same refused / loud at setup / exact-under-the-run's-distinctness-facts statement over EVERY raw configuration for PiPack, PiPtr, Pi2Lev, CT14, ANSS16, SSE1 (no collision hypothesis on its PRPs) and DP17 (S.refused_or_correct); for SSE2 every raw configuration is refused or yields a scheme that is correct outright (SSE2.refused_or_correct: setup returns, tokens are generated, every stored keyword's search is exact - no hypothesis about the run). Tie: the models' builders against the real ones over a grid (every field deleted once; length fields over "
